@@ -65,6 +65,14 @@ def _tile_rect(rng):
     h = rng.choice([0, 1, 1, 2, 3, 5, rng.randint(0, 12)])
     w0 = rng.choice([0, 1, 2, 3, 5, rng.randint(0, 12)])
     ragged = rng.random() < 0.3
+    if rng.random() < 0.3:
+        # runs of consecutive sprite ids, also across the end of a sheet row
+        rows = []
+        for _ in range(h):
+            start = rng.choice([13, 14, 15, 29, 30, 31, 254, 253,
+                                rng.randint(0, 255)])
+            rows.append([(start + i) & 0xff for i in range(max(w0, 2))])
+        return rows
     return [[rng.randint(0, 255) for _ in range(
         rng.randint(0, w0) if ragged else w0)] for _ in range(h)]
 
@@ -437,6 +445,22 @@ POSITIONAL = {
 }
 
 
+class ArgumentModified(Exception):
+    """A setter changed the data structure it was given."""
+
+
+def _check_args_untouched(op, passed, original, a):
+    kind = a.get('rows_as') or ('bytearray' if a.get('as_bytearray')
+                                else 'list')
+    if kind in ('iter', 'gen'):
+        return            # one-shot iterators are consumed by design
+    now = [list(r) for r in passed]
+    if now != [list(r) for r in original]:
+        raise ArgumentModified(
+            '%s modified the rows it was given: %r -> %r' % (
+                op, [list(r) for r in original][:4], now[:4]))
+
+
 def _rows(rows, a):
     """The documented argument type is 'an iterable of iterables': lists,
     bytearrays, tuples, one-shot iterators and generators are all legal."""
@@ -471,7 +495,13 @@ def _real(g, op, a):
                 args.append(kw.pop(name))
             else:
                 break
-        return getattr(getattr(g, sec), meth)(*args, **kw)
+        r = getattr(getattr(g, sec), meth)(*args, **kw)
+        if op == 'gfx.set_sprite':
+            _check_args_untouched(op, args[1] if len(args) > 1
+                                  else kw.get('sprite'), a['sprite'], a)
+        if op == 'map.set_rect_tiles':
+            _check_args_untouched(op, args[0], a['rect'], a)
+        return r
     if op == RAW_OP:
         data = core.rnd_bytes(a['data_seed'], a['len'])
         if a.get('as_bytearray'):
@@ -489,15 +519,24 @@ def _real(g, op, a):
         snapshot = _norm(spr)
         g.gfx.set_sprite(a['dest'], spr, a['tile_x_offset'],
                          a['tile_y_offset'])
+        if _norm(spr) != snapshot:
+            raise ArgumentModified(
+                'gfx.set_sprite modified the sprite object it was given '
+                '(rows as returned by get_sprite)')
         return snapshot
     target = getattr(g, sec)
     kw = {k: v for k, v in a.items() if k not in ('as_bytearray', 'pos')}
     kw.pop('rows_as', None)
     if op == 'gfx.set_sprite':
         spr = _rows(kw.pop('sprite'), a)
-        return target.set_sprite(kw.pop('id'), spr, **kw)
+        r = target.set_sprite(kw.pop('id'), spr, **kw)
+        _check_args_untouched(op, spr, a['sprite'], a)
+        return r
     if op == 'map.set_rect_tiles':
-        return target.set_rect_tiles(_rows(kw['rect'], a), kw['x'], kw['y'])
+        rect = _rows(kw['rect'], a)
+        r = target.set_rect_tiles(rect, kw['x'], kw['y'])
+        _check_args_untouched(op, rect, a['rect'], a)
+        return r
     return getattr(target, meth)(**kw)
 
 
